@@ -74,7 +74,7 @@ check against SHA1(salt | 20 zero bytes). distinct = distinct (length, distribut
         .to_string();
     let max_l: usize = match tier {
         "quick" => 10,
-        "thorough" => 12,
+        "thorough" => 20,
         _ => 2,
     };
     let r = par(max_l + 1, threads(), |l| {
@@ -104,18 +104,33 @@ check against SHA1(salt | 20 zero bytes). distinct = distinct (length, distribut
     total.note(format!("all distributions of byte strings of length 0..={} over the five arguments were enumerated", max_l));
     let (n_sizes, big): (usize, usize) = match tier {
         "quick" => (400, 2),
-        "thorough" => (6000, 24),
+        "thorough" => (60000, 32),
         _ => (2, 0),
     };
-    let r = par(16, threads(), |sh| {
+    let r = par(if tier == "miri" { 1 } else { 16 }, threads(), |sh| {
         let mut rep = Rep::new();
         let mut rng = Rng::new(seed, 0x17100 + sh as u64);
         let special = [55usize, 56, 63, 64, 65, 119, 120, 127, 128, 129, 191, 192, 193, 1000, 4096];
         for i in 0..(n_sizes + 15) / 16 {
             let len = if i < special.len() { special[(i + sh) % special.len()] } else { rng.below(5000) as usize };
             let data = rng.bytes(len);
-            let salt: [u8; 16] = rng.arr();
-            let key: [u8; 32] = rng.arr();
+            let salt: [u8; 16] = match i % 11 {
+                3 => [0u8; 16],
+                7 => [0xff; 16],
+                _ => rng.arr(),
+            };
+            let key: [u8; 32] = match i % 7 {
+                1 => wow_srp::LARGE_SAFE_PRIME_LITTLE_ENDIAN,
+                2 => [0u8; 32],
+                3 => [0xff; 32],
+                4 => {
+                    let mut k = wow_srp::LARGE_SAFE_PRIME_LITTLE_ENDIAN;
+                    k[0] ^= 1;
+                    k
+                }
+                _ => rng.arr(),
+            };
+            rep.hist("key_class", match i % 7 { 1 => "N", 2 => "zero", 3 => "ff", 4 => "N^1", _ => "random" }, 1);
             let mut cuts = [rng.below(len as u64 + 1) as usize, rng.below(len as u64 + 1) as usize, rng.below(len as u64 + 1) as usize, rng.below(len as u64 + 1) as usize];
             cuts.sort();
             if rng.chance(1, 5) {
@@ -130,7 +145,7 @@ check against SHA1(salt | 20 zero bytes). distinct = distinct (length, distribut
             if i % 4 == 0 {
                 let base = login_integrity_check_generic(&data, &salt, &key);
                 rep.ev(1);
-                for bit in 0..128 {
+                for bit in (0..128).step_by(if n_sizes < 10 { 16 } else { 1 }) {
                     let mut s2 = salt;
                     s2[bit / 8] ^= 1 << (bit % 8);
                     rep.ev(1);
@@ -139,7 +154,7 @@ check against SHA1(salt | 20 zero bytes). distinct = distinct (length, distribut
                     }
                     rep.cell(&[1001, bit as u64]);
                 }
-                for bit in 0..256 {
+                for bit in (0..256).step_by(if n_sizes < 10 { 32 } else { 1 }) {
                     let mut k2 = key;
                     k2[bit / 8] ^= 1 << (bit % 8);
                     rep.ev(1);
@@ -149,7 +164,7 @@ check against SHA1(salt | 20 zero bytes). distinct = distinct (length, distribut
                     rep.cell(&[1002, bit as u64]);
                 }
                 if len > 0 && len <= 200 {
-                    for bit in 0..len * 8 {
+                    for bit in (0..len * 8).step_by(if n_sizes < 10 { 40 } else { 1 }) {
                         let mut d2 = data.clone();
                         d2[bit / 8] ^= 1 << (bit % 8);
                         rep.ev(2);
@@ -200,7 +215,7 @@ check against SHA1(salt | 20 zero bytes). distinct = distinct (length, distribut
             rep.cell(&[len as u64, cuts[0] as u64]);
         }
         // reconnect variant
-        for _ in 0..200 {
+        for _ in 0..(if n_sizes < 10 { 5 } else { 200 }) {
             let salt: [u8; 16] = rng.arr();
             rep.ev(1);
             match guard(|| reconnect_integrity_check(&salt)) {
